@@ -68,6 +68,15 @@ else:
         fun(x, y)
 
 
+def _inexact_dtype(dtype):
+    """ dtype of the inverse / of the solution of a linear system: integer (and boolean) data
+    is promoted to floating point, like numpy.linalg.inv and numpy.linalg.solve do """
+    dtype = numpy.dtype(dtype)
+    if dtype.kind in 'biu':
+        return numpy.result_type(dtype, numpy.float64)
+    return dtype
+
+
 class UTPM(Ring, RawAlgorithmsMixIn):
     r"""
 
@@ -2039,7 +2048,7 @@ class UTPM(Ring, RawAlgorithmsMixIn):
     @classmethod
     def inv(cls, A, out = None):
         if out is None:
-            out = cls(cls.__zeros__(A.data.shape, dtype = A.data.dtype))
+            out = cls(cls.__zeros__(A.data.shape, dtype = _inexact_dtype(A.data.dtype)))
         else:
             raise NotImplementedError('')
 
@@ -2077,7 +2086,7 @@ class UTPM(Ring, RawAlgorithmsMixIn):
             D, P, M = A_shp[:3]
 
             if out is None:
-                dtype = numpy.promote_types(A.data.dtype, x.data.dtype)
+                dtype = _inexact_dtype(numpy.promote_types(A.data.dtype, x.data.dtype))
                 out = cls(cls.__zeros__((D,P,M) + x_shp[3:], dtype=dtype))
 
             UTPM._solve(A.data, x.data, out = out.data)
@@ -2087,7 +2096,7 @@ class UTPM(Ring, RawAlgorithmsMixIn):
             x_shp = numpy.shape(x.data)
             M = A_shp[0]
             D,P = x_shp[:2]
-            dtype = numpy.promote_types(A.dtype, x.data.dtype)
+            dtype = _inexact_dtype(numpy.promote_types(A.dtype, x.data.dtype))
             out = cls(cls.__zeros__((D,P,M) + x_shp[3:], dtype=dtype))
             cls._solve_non_UTPM_A(A, x.data, out = out.data)
 
@@ -2095,7 +2104,7 @@ class UTPM(Ring, RawAlgorithmsMixIn):
             A_shp = numpy.shape(A.data)
             x_shp = numpy.shape(x)
             D,P,M = A_shp[:3]
-            dtype = numpy.promote_types(A.data.dtype, x.dtype)
+            dtype = _inexact_dtype(numpy.promote_types(A.data.dtype, x.dtype))
             out = cls(cls.__zeros__((D,P,M) + x_shp[1:], dtype=dtype))
             cls._solve_non_UTPM_x(A.data, x, out = out.data)
 
